@@ -234,6 +234,50 @@ def randmeth_update_model(ctx, dim, what, tol, kind):
     ctx.ensure("state=fresh(seed,new-model)", views_equal(ctx, gen_view(g), gen_view(fresh)))
 
 
+def _opt_model_class(ctx):
+    """generic user model with one optional argument `shape` (as Stable.alpha, Matern.nu, TPL hurst ...)"""
+    U = gc.generic_model_class(ctx)
+
+    class UOpt(U):
+        def default_opt_arg(self):
+            return {"shape": 1.5}
+
+        def default_opt_arg_bounds(self):
+            return {"shape": [0.0, 10.0, "oo"]}
+    return UOpt
+
+
+@contract(P, "Generator.update[model]/optional-argument-change-equals-fresh-generator",
+          params=[{"gen": g, "dim": d, "how": h} for g in ("RandMeth", "Fourier") for d in (1, 2) for h in ("new-object", "in-place")],
+          functions=FN_RM + ["covmodel/tools.py:compare", "covmodel/base.py:CovModel.__eq__"], nsamples=1, search=20)
+def update_optional_arg(ctx, gen, dim, how):
+    """a model that differs from the generator's copy only in an OPTIONAL argument is a changed model
+    (`CovModel.__eq__` compares every parameter, optional ones included)"""
+    U = _opt_model_class(ctx)
+    v, l = ctx.real("var", pos=True), ctx.real("len", pos=True)
+    a, b = ctx.real("shape", lo=0.5, hi=3.0), ctx.real("shape2", lo=3.5, hi=6.0)
+    ctx.require(ctx.And(ctx.gt(v, 0), ctx.gt(l, 0), ctx.gt(a, 0), ctx.lt(a, 10), ctx.gt(b, 0), ctx.lt(b, 10)))
+    ctx.require(ctx.Not(_isclose(ctx, a, b)))
+    mod = _q(U, dim=dim, var=v, len_scale=l, shape=a)
+    mod2 = _q(U, dim=dim, var=v, len_scale=l, shape=b)
+    ctx.ensure("models-differ", ctx.And(bool(mod != mod2), not bool(mod == mod2)))
+    s = ctx.integer("seed", lo=1, hi=1000)
+    if gen == "RandMeth":
+        mk = lambda m_: _q(RandMeth, m_, mode_no=2, seed=s)          # noqa: E731
+    else:
+        per = ctx.reals("per", dim, pos=True)
+        for p in per:
+            ctx.require(ctx.gt(p, 0))
+        mk = lambda m_: _q(Fourier, m_, period=per, mode_no=[2] * dim, seed=s)      # noqa: E731
+    g = mk(mod)
+    if how == "new-object":
+        g.update(mod2)
+    else:
+        mod.shape = b
+        g.update(mod)
+    ctx.ensure("state=fresh(seed,new-model)", views_equal(ctx, gen_view(g), gen_view(mk(mod2))))
+
+
 @contract(P, "RandMeth.update[seed]/equals-fresh-generator", params={"dim": [1, 2], "how": ["update", "setter", "reset_seed"]},
           functions=FN_RM, nsamples=1, search=20)
 def randmeth_update_seed(ctx, dim, how):
@@ -440,3 +484,30 @@ def srf_inplace_fourier(ctx, dim, what, tol):
     fresh = _q(gs.SRF, mod2, generator="Fourier", period=per, mode_no=[2] * dim, seed=s)(x)
     ctx.ensure("field=fresh-generator-field", ctx.eq(got, fresh))
     ctx.ensure("generator-keeps-a-private-model-copy", srf.generator.model is not srf.model)
+
+
+# --- the random layer behind the ghost RNG (assumption T5): deterministic in the seed VALUE, natively ------------
+@contract(P, "random.RNG,MasterRNG/deterministic-in-the-seed-value",
+          params={"seed": ["0", "1", "4711", "2**32-1", "np.int64(0)", "np.int64(20220101)"]},
+          functions=["random/tools.py:MasterRNG.__init__", "random/rng.py:RNG.seed", "random/rng.py:RNG.__init__"],
+          bounded="6 seed values incl. the boundary values 0 and 2**32-1 and numpy integers; first 4 sub-seeds / 5 draws")
+def rng_seed_values(ctx, seed):
+    """`seed : int or None -- if None a random seed is used`: every integer, 0 included, is a seed.  The ghost RNG
+    of the symbolic runs assumes exactly this of the real classes (T5)."""
+    import numpy.random as npr
+    from gstools.random import RNG, MasterRNG
+    s = eval(seed, {"np": np})
+    with symrun.native():
+        a, b = MasterRNG(s), MasterRNG(s)
+        ref = npr.RandomState(int(s))
+        want = [int(ref.randint(1, 2 ** 16)) for _ in range(4)]
+        sa, sb = [int(a()) for _ in range(4)], [int(b()) for _ in range(4)]
+        ctx.ensure("MasterRNG:sub-seed-stream=RandomState(seed).randint(1,2**16)", sa == want and sb == want)
+        ctx.ensure("MasterRNG.seed=given", a.seed == s)
+        r1, r2 = RNG(s), RNG(s)
+        d1, d2 = r1.random.normal(size=5), r2.random.normal(size=5)
+        ctx.ensure("RNG:equal-seed-values=>equal-draws", bool(np.array_equal(d1, d2)) and r1.seed == s)
+        r1.seed = s          # re-seeding with the same value restarts the same stream
+        ctx.ensure("RNG.seed.setter:restarts-the-stream-of-that-value", bool(np.array_equal(r1.random.normal(size=5), d1)))
+        r3 = RNG(int(s) + 1 if int(s) < 2 ** 32 - 1 else int(s) - 1)
+        ctx.ensure("different-seed=>different-draws", not bool(np.array_equal(r3.random.normal(size=5), d1)))
